@@ -131,7 +131,9 @@ CHECKS["C18"]["text"] += " Also: the same options value (and the same verify.Opt
 CHECKS["C19"]["text"] += " Also: -quiet / -verbosity / quote on standard input, the config's any_mr_td allow-list under an -mr_td flag, zero and negative -timeout / -max_retry_delay, every number spelling the tool accepts, several kinds of unparsable quote; runs against an unreachable PCS must end within five seconds."
 CHECKS["C20"]["text"] += (" RetryInd.tla: Apalache proves the loop's invariant for all parameter values. A grid point with forty failures in one call; successes with empty / nil body and headers; the bound is also checked through the "
                           "command line of tools/check. spec/HttpsGet.tla (the wrapped transport and DefaultHTTPSGetter's shape) is validated as a non-verdict part.")
+CHECKS["C15"]["text"] += " spec/AttestTool.tla (the tools/attest command line around the same client calls: stages, exit status, what a refused run leaves behind) is validated against the real binary as a non-verdict part."
 ENGINES += [
+    {"name": "attesttool", "path": "spec/AttestTool.tla", "serves_properties": ["C15"], "kind_free_text": "TLA+ spec of the tools/attest command line + TLC + runs of the real binary (non-verdict part)"},
     {"name": "isolation", "path": "spec/VerifyIsolation.tla", "serves_properties": ["C01"], "kind_free_text": "TLA+ spec of concurrent verifications with private buffers (+ shared-buffer counter-model) + TLC + concurrent driver"},
     {"name": "httpsget", "path": "spec/HttpsGet.tla", "serves_properties": ["C10", "C20"], "kind_free_text": "TLA+ spec of the HTTPS transport under the retrying getter + TLC + in-harness TLS servers behind a CONNECT proxy"},
     {"name": "abstraction", "path": "spec/SystemAbstraction.tla", "serves_properties": ["C11"], "kind_free_text": "cross-specification consistency: the composition's abstractions vs TdxVerify / GuestClient / CheckTool (TLC)"},
